@@ -28,6 +28,10 @@
 //	             closed on both sides + 45 virtual seconds > QUIC idle timeout); only rounds without faults expect
 //	             liveness, and under faults 15 virtual seconds (> the WebTransport listener's 10 s handshake timeout)
 //	             pass after a round, so that no inbound handshake that passed InterceptAccept straddles a rule change.
+//	             Hole-punch rounds (QUIC stratum only, see punchRound): G punches towards P or Q in the SERVER role
+//	             (Swarm.DialPeer or the QUIC transport's Dial with WithSimultaneousConnect(ctx,false,…)) while the host
+//	             or its twin (same key, on the host's decoy IP, alive for that round) dials G over QUIC after 0 / 50 ms /
+//	             1 s / 4.9 s; optionally one Block/Unblock on a rule matching the host or the twin returns mid-punch.
 //	hooks-direct the gater alone (same histories, faults, restarts); after every call every Intercept* hook is
 //	             asked about every pool IP in every textual form (/ip4, /ip6, /ip6/::ffff:…, /ip6zone, quic-v1,
 //	             webtransport, webrtc-direct, ws, bare IP) and about forms without IP component.
@@ -54,10 +58,14 @@
 //	                 connection to G: G refused a QUIC / WebTransport connection without closing it (these arrive fully
 //	                 established at the gating point, so "closed at accept / right after the handshake" is visible only
 //	                 as the remote's connection going away; far below the 30 s idle timeout)
-//	hook-not-consulted  a connection is admitted on G although the gater was never asked, since this node started,
+//	punch-returned-* what the QUIC transport's server-role Dial RETURNS (called directly) matches a rule definitely in force
+//	hook-not-consulted  a connection is admitted on G although the gater did not allow it, since this node started,
 //	                 at one of the call sites the ConnectionGater interface documents for it (outbound: PeerDial,
 //	                 AddrDial for that transport+IP, Secured(outbound) for that peer+transport+IP, Upgraded for that
-//	                 very connection; inbound: Accept, Secured(inbound), Upgraded). From the interface documentation
+//	                 very connection: existence; inbound: Accept, Secured(inbound): COUNTED — connections admitted per
+//	                 (transport, IP[, peer]) never exceed the allowing answers — and Upgraded). A connection handed
+//	                 out by a server-role QUIC hole punch is the remote's inbound connection (the swarm files it as
+//	                 outbound): it is held to the inbound call sites. From the interface documentation
 //	                 and the quantifier's "each transport's own gating call sites". BasicConnectionGater answers
 //	                 Secured(outbound) with true always, so this is the only oracle that can see a transport whose
 //	                 dial path does not ask.
@@ -132,6 +140,12 @@
 //	listener.go: gated connection refused but left open (no closeWithError)  refused-inbound-not-closed/{peer,addr,subnet}/quic/{live,restored}
 //	swarm: InterceptAddrDial / InterceptPeerDial not consulted (C10_ONLY=quic)  dialed-blocked-{addr,subnet,peer}/quic, admitted-…/outbound/quic, hook-not-consulted/Intercept{Addr,Peer}Dial/outbound/{tcp,quic}
 //
+// Seeded changes C10c/1 and C10c/2 (QUIC hole-punch hand-off; scratch copies of the tree, `./check C10 quick`, 8 workers):
+//
+//	listener.Accept hands a connection matching a pending punch to the Dial BEFORE the gater check   hook-not-consulted/Intercept{Accept,Secured}/inbound/quic, punch-returned-blocked-{addr,subnet}/quic, admitted-blocked-{subnet,…}/outbound/quic, refused-inbound-not-closed/*/quic
+//	punch matched by peer id alone + InterceptAccept skipped for connections answering a punch       admitted-blocked-{addr,subnet}/outbound/quic/{ip4,ip6}, punch-returned-blocked-{addr,subnet}/quic, refused-inbound-not-closed/{addr,subnet}/quic (twin from a blocked IP)
+//	(both MISSED before hole-punch rounds existed)
+//
 // WebTransport (overlay copies of p2p/transport/webtransport/{listener,transport}.go, C10_ONLY=quic, one worker, <= 60 s):
 //
 //	listener.go: InterceptAccept skipped                                    hook-not-consulted/InterceptAccept/inbound/webtransport, admitted-blocked-{addr,subnet}/inbound/webtransport/{ip4,ip6}/{live,restored}
@@ -161,6 +175,7 @@ import (
 	"github.com/libp2p/go-libp2p/core/network"
 	"github.com/libp2p/go-libp2p/core/peer"
 	"github.com/libp2p/go-libp2p/core/peerstore"
+	"github.com/libp2p/go-libp2p/core/transport"
 	"github.com/libp2p/go-libp2p/p2p/net/conngater"
 	"github.com/libp2p/go-libp2p/p2p/net/swarm"
 	ma "github.com/multiformats/go-multiaddr"
@@ -652,7 +667,9 @@ type fullStack struct {
 	quic      bool
 	udpCfg    simnet.UDPConfig
 	faultsOn  bool            // drawn UDP faults are in force
-	calls     map[string]bool // hook call sites reached in this incarnation of G (see noteCall)
+	calls     map[string]int  // ALLOWING answers per gating call site in this incarnation of G (see noteCall)
+	admitted  map[string]int  // admitted inbound-type connections per call-site key (must not exceed calls)
+	punching  map[string]bool // peers G is hole punching towards in the current round (server role)
 	upgraded  map[network.Conn]bool
 	everSeen  map[network.Conn]bool // connections G was notified of
 	scidFrom  map[string]bool       // "<remote ip>|<scid>" of every long-header packet sent to G
@@ -720,9 +737,12 @@ func tptOf(a ma.Multiaddr) string {
 }
 
 // noteCall records that a gating call site was reached (for the hook-not-consulted oracle).
-func (fs *fullStack) noteCall(key string) {
+func (fs *fullStack) noteCall(key string, allow bool) {
+	if !allow {
+		return
+	}
 	fs.mu.Lock()
-	fs.calls[key] = true
+	fs.calls[key]++
 	fs.mu.Unlock()
 }
 
@@ -781,7 +801,7 @@ func (r *recGater) hostByID(p peer.ID) string { return r.fs.names[p] }
 func (r *recGater) InterceptPeerDial(p peer.ID) bool {
 	fs := r.fs
 	allow := fs.gater.InterceptPeerDial(p)
-	fs.noteCall("PeerDial|" + r.hostByID(p))
+	fs.noteCall("PeerDial|"+r.hostByID(p), allow)
 	if !allow {
 		fs.probe("refused-PeerDial")
 	}
@@ -795,7 +815,7 @@ func (r *recGater) InterceptAddrDial(p peer.ID, a ma.Multiaddr) bool {
 	fs := r.fs
 	allow := fs.gater.InterceptAddrDial(p, a)
 	if ip := ipOf(a); ip != nil {
-		fs.noteCall("AddrDial|" + r.hostByID(p) + "|" + tptOf(a) + "|" + normIP(ip))
+		fs.noteCall("AddrDial|"+r.hostByID(p)+"|"+tptOf(a)+"|"+normIP(ip), allow)
 	}
 	if !allow {
 		fs.probe("refused-AddrDial")
@@ -817,7 +837,7 @@ func (r *recGater) InterceptAccept(c network.ConnMultiaddrs) bool {
 	allow := fs.gater.InterceptAccept(c)
 	a := c.RemoteMultiaddr()
 	if ip := ipOf(a); ip != nil {
-		fs.noteCall("Accept|" + tptOf(a) + "|" + normIP(ip))
+		fs.noteCall("Accept|"+tptOf(a)+"|"+normIP(ip), allow)
 	}
 	if !allow {
 		fs.probe("refused-Accept")
@@ -840,7 +860,7 @@ func (r *recGater) InterceptSecured(d network.Direction, p peer.ID, c network.Co
 	ra := c.RemoteMultiaddr()
 	iv := fs.m.ipVerdict(ipOf(ra))
 	if ip := ipOf(ra); ip != nil {
-		fs.noteCall("Secured|" + strings.ToLower(d.String()) + "|" + n + "|" + tptOf(ra) + "|" + normIP(ip))
+		fs.noteCall("Secured|"+strings.ToLower(d.String())+"|"+n+"|"+tptOf(ra)+"|"+normIP(ip), allow)
 	}
 	if t := tptOf(ra); t != "tcp" {
 		fs.probe(t + "-Secured-" + strings.ToLower(d.String()))
@@ -892,7 +912,8 @@ func stripPort(a ma.Multiaddr) string {
 
 func (fs *fullStack) startG() bool {
 	fs.mu.Lock()
-	fs.calls = map[string]bool{}
+	fs.calls = map[string]int{}
+	fs.admitted = map[string]int{}
 	fs.upgraded = map[network.Conn]bool{}
 	fs.mu.Unlock()
 	nd, err := simhost.New(fs.n, simhost.Opts{Key: simhost.DetKey(1), IP: gIP, Port: tcpPort, Security: fs.secu, Gater: &recGater{fs: fs}, QUIC: fs.quic, WebTransport: fs.quic,
@@ -942,33 +963,65 @@ func (fs *fullStack) judgeAdmitted(e connEvent) {
 	// Every admitted connection must have passed the call sites the ConnectionGater interface documents
 	// (core/connmgr/gater.go): outbound InterceptPeerDial, InterceptAddrDial, InterceptSecured, InterceptUpgraded;
 	// inbound InterceptAccept, InterceptSecured, InterceptUpgraded — "for every transport ... each transport's own
-	// gating call sites". Existence since this incarnation of G started is enough (weak, but a transport that never
-	// asks is caught by its first connection). BasicConnectionGater answers InterceptSecured(outbound) with true
-	// always, so only this oracle can see a transport that does not ask on its dial path.
+	// gating call sites". Outbound: an allowing answer since this incarnation of G started is enough (weak, but a
+	// transport that never asks is caught by its first connection). Inbound: every admitted connection needs an
+	// allowing answer of its own, so the number of admitted connections per (transport, IP[, peer]) never exceeds the
+	// number of allowing answers. BasicConnectionGater answers InterceptSecured(outbound) with true always, so only
+	// this oracle can see a transport that does not ask on its dial path.
+	// A QUIC hole punch in the server role does not dial: the transport hands out the remote's INBOUND connection
+	// (listener.Accept runs the inbound hooks on it) and the swarm files it as outbound. While G punches towards
+	// the peer, an "outbound" QUIC connection with it is therefore held to the inbound call sites.
 	if n == "" || ip == nil || e.stamp == 0 {
 		return
 	}
-	var want []string
-	if e.dir == network.DirOutbound {
-		want = []string{"PeerDial|" + n, "AddrDial|" + n + "|" + tpt + "|" + normIP(ip), "Secured|outbound|" + n + "|" + tpt + "|" + normIP(ip)}
-	} else {
-		want = []string{"Accept|" + tpt + "|" + normIP(ip), "Secured|inbound|" + n + "|" + tpt + "|" + normIP(ip)}
+	fs.mu.Lock()
+	punched := e.dir == network.DirOutbound && tpt == "quic" && fs.punching[n]
+	fs.mu.Unlock()
+	fs.judgeCallSites(n, ip, tpt, e.dir, punched, e.conn, stripPort(e.addr))
+}
+
+func (fs *fullStack) judgeCallSites(n string, ip net.IP, tpt string, d network.Direction, punched bool, c network.Conn, where string) {
+	dir := strings.ToLower(d.String())
+	var exist, counted []string
+	switch {
+	case punched:
+		fs.probe("punched-conn-handed-out")
+		exist = []string{"PeerDial|" + n, "AddrDial|" + n + "|" + tpt + "|" + normIP(ip)}
+		counted = []string{"Accept|" + tpt + "|" + normIP(ip), "Secured|inbound|" + n + "|" + tpt + "|" + normIP(ip)}
+		dir = "inbound"
+	case d == network.DirOutbound:
+		exist = []string{"PeerDial|" + n, "AddrDial|" + n + "|" + tpt + "|" + normIP(ip), "Secured|outbound|" + n + "|" + tpt + "|" + normIP(ip)}
+	default:
+		counted = []string{"Accept|" + tpt + "|" + normIP(ip), "Secured|inbound|" + n + "|" + tpt + "|" + normIP(ip)}
 	}
 	fs.mu.Lock()
 	var missing []string
-	for _, k := range want {
-		if !fs.calls[k] {
+	for _, k := range exist {
+		if fs.calls[k] == 0 {
 			missing = append(missing, k)
 		}
 	}
-	if !fs.upgraded[e.conn] {
+	for _, k := range counted {
+		fs.admitted[k]++
+		if fs.admitted[k] > fs.calls[k] {
+			missing = append(missing, fmt.Sprintf("%s (connections handed out: %d, allowing answers: %d)", k, fs.admitted[k], fs.calls[k]))
+		}
+	}
+	if c != nil && !fs.upgraded[c] {
 		missing = append(missing, "Upgraded")
 	}
 	fs.mu.Unlock()
 	fs.bump()
+	what := "admitted"
+	if punched {
+		what = "handed out by a server-role hole punch"
+	}
 	for _, k := range missing {
 		hook := "Intercept" + strings.SplitN(k, "|", 2)[0]
-		fs.violate("C10/hook-not-consulted/"+hook+"/"+dir+"/"+tpt, "G admitted a %s %s connection with %s (%s) but the gater was never asked %s since this node started (call sites reached: %d)", dir, tpt, n, stripPort(e.addr), k, len(want))
+		if i := strings.IndexByte(hook, ' '); i > 0 {
+			hook = hook[:i]
+		}
+		fs.violate("C10/hook-not-consulted/"+hook+"/"+dir+"/"+tpt, "a %s %s connection with %s (%s) was %s on G but the gater did not allow it at %s since this node started", dir, tpt, n, where, what, k)
 	}
 }
 
@@ -1434,6 +1487,241 @@ func (fs *fullStack) round() {
 	}
 }
 
+// punchRound (QUIC stratum): G hole-punches towards a host in the SERVER role — Swarm.DialPeer (or the QUIC
+// transport's Dial directly) with network.WithSimultaneousConnect(ctx, false, …), as the DCUtR responder does —
+// while the host, or its TWIN (a second node with the same key on the host's decoy IP, alive for this round only),
+// dials G over QUIC after a drawn delay. The transport does not dial then: it sends random datagrams and waits up
+// to HolePunchTimeout (5 s) for the remote's INBOUND connection from exactly the punched address, which
+// listener.Accept must gate like any other accepted connection before handing it to the waiting Dial. Optionally
+// one Block/Unblock call on a rule that matches the host or its twin returns mid-punch (at half the delay, at a
+// quiescent instant). Oracles: admitted-* (notification time), what the punching Dial RETURNS (punch-returned-*),
+// hook-not-consulted with the inbound call sites counted, refused-inbound-not-closed, dialed-*.
+func (fs *fullStack) punchRound() {
+	h := []*host{fs.P, fs.Q}[fs.g.Int(2)]
+	who := fs.g.Int(3) // 0 the host dials, 1 its twin dials, 2 both
+	delay := []time.Duration{0, 50 * time.Millisecond, time.Second, 4900 * time.Millisecond}[fs.g.Int(4)]
+	direct := fs.g.Chance(1, 3) // transport.Dial instead of Swarm.DialPeer: no InterceptPeerDial/AddrDial in front
+	midOp := delay > 0 && fs.g.Bool()
+	faulty := fs.faultsOn
+	fam := "ip4"
+	if h.v6 {
+		fam = "ip6"
+	}
+	target := ma.StringCast(fmt.Sprintf("/%s/%s/udp/%d/quic-v1", fam, h.ip, tcpPort))
+	desc := fmt.Sprintf("punch: G punches %s at %s (server role, %s); dialling G over QUIC after %v: %s", h.name, target,
+		map[bool]string{false: "Swarm.DialPeer", true: "transport.Dial"}[direct], delay, []string{h.name, h.name + "'s twin at " + h.decoy, h.name + " and its twin at " + h.decoy}[who])
+	fs.logf("%s; model %s", desc, fs.modelString())
+	fs.probe("punch-round")
+	fs.probe(fmt.Sprintf("punch-delay-%v", delay))
+
+	// nothing between G and the host may exist: DialPeer would return it instead of punching
+	fs.G.Swarm.ClosePeer(h.node.ID)
+	h.node.Swarm.ClosePeer(fs.G.ID)
+	fs.settle(time.Second)
+	fs.G.Swarm.Backoff().Clear(h.node.ID)
+	h.node.Swarm.Backoff().Clear(fs.G.ID)
+
+	type dialler struct {
+		name string
+		ip   string
+		node *simhost.Node
+		err  error
+	}
+	var ds []*dialler
+	if who != 1 {
+		ds = append(ds, &dialler{name: h.name, ip: h.ip, node: h.node})
+	}
+	var twin *simhost.Node
+	if who != 0 {
+		nd, err := simhost.New(fs.n, simhost.Opts{Key: simhost.DetKey(h.seed), IP: h.decoy, Port: tcpPort, Security: fs.secu, QUIC: true})
+		if err != nil {
+			fs.trouble("twin of %s: %v", h.name, err)
+			return
+		}
+		twin = nd
+		nd.Swarm.SetStreamHandler(func(s network.Stream) { s.Reset() })
+		ds = append(ds, &dialler{name: h.name + "-twin", ip: h.decoy, node: nd})
+		fs.probe("punch-with-twin")
+	}
+	for _, d := range ds {
+		d.node.PS.ClearAddrs(fs.G.ID)
+		d.node.PS.AddAddrs(fs.G.ID, []ma.Multiaddr{fs.G.QAddr}, peerstore.PermanentAddrTTL)
+	}
+	fs.G.PS.ClearAddrs(h.node.ID)
+	fs.G.PS.AddAddrs(h.node.ID, []ma.Multiaddr{target}, peerstore.PermanentAddrTTL)
+	fs.mu.Lock()
+	fs.punching[h.name] = true
+	fs.refusedNonMatching = false
+	fs.mu.Unlock()
+
+	var punchErr error
+	var got transport.CapableConn
+	var gotConn network.Conn
+	done := make(chan int, 1+len(ds))
+	simrt.GoNamed("punch G->"+h.name, func() {
+		ctx, cancel := context.WithTimeout(context.Background(), 30*time.Second)
+		ctx = network.WithSimultaneousConnect(ctx, false, "c10 hole punch")
+		if direct {
+			if tp := fs.G.Swarm.TransportForDialing(target); tp != nil {
+				got, punchErr = tp.Dial(ctx, target, h.node.ID)
+			} else {
+				punchErr = errors.New("no transport")
+			}
+		} else {
+			gotConn, punchErr = fs.G.Swarm.DialPeer(ctx, h.node.ID)
+		}
+		cancel()
+		simrt.Send("punch-done", done, 0)
+	})
+	for i, d := range ds {
+		i, d := i, d
+		simrt.GoNamed("dial "+d.name+"->G", func() {
+			if delay > 0 {
+				simrt.TimeSleep(delay)
+			}
+			ctx, cancel := context.WithTimeout(context.Background(), 30*time.Second)
+			_, d.err = d.node.Swarm.DialPeer(ctx, fs.G.ID)
+			cancel()
+			simrt.Send("punch-done", done, 1+i)
+		})
+	}
+	if midOp {
+		// a rule that matches the host or its twin takes force (or is lifted) while the punch is pending
+		var rel []*rule
+		for _, r := range fs.cat {
+			switch r.kind {
+			case kPeer:
+				if r.key == "p:"+h.name {
+					rel = append(rel, r)
+				}
+			case kAddr:
+				if k := normIP(r.ip); k == h.ip || k == h.decoy {
+					rel = append(rel, r)
+				}
+			case kSubnet:
+				if r.ipnet.Contains(net.ParseIP(h.ip)) || r.ipnet.Contains(net.ParseIP(h.decoy)) {
+					rel = append(rel, r)
+				}
+			}
+		}
+		r := rel[fs.g.Int(len(rel))]
+		block := fs.g.Weighted(3, 1) == 0
+		fault := []int{0, 2}[fs.g.Weighted(5, 1)] // no process stop mid-punch: that is a restart round
+		simrt.TimeSleep(delay / 2)
+		simrt.WaitIdle()
+		fs.probe("rule-change-mid-punch")
+		fs.applyRule(block, r, fault)
+	}
+	for i := 0; i < 1+len(ds); i++ {
+		simrt.Recv("punch-wait", done)
+	}
+	simrt.WaitIdle()
+	if faulty {
+		fs.settle(15 * time.Second)
+	} else {
+		fs.settle(6 * time.Second)
+	}
+
+	// ---- oracles, with the rules in force since (at the latest) half the delay, i.e. before anybody dialled G ----
+	pvH := fs.m.peerVerdict(h.name)
+	res := []string{"punch=" + map[bool]string{true: "ok", false: "err"}[punchErr == nil]}
+	fs.logf("  punch: %s", short(punchErr))
+	if punchErr == nil {
+		fs.probe("punch-succeeded")
+	}
+	if got != nil {
+		// what the transport's Dial returned is a connection it let through its own gating point
+		ra := got.RemoteMultiaddr()
+		ip := ipOf(ra)
+		n := fs.names[got.RemotePeer()]
+		fs.probe("punch-returned-conn-direct")
+		if v := fs.m.peerVerdict(n); v.def {
+			fs.violate("C10/punch-returned-blocked-peer/quic/"+fs.phase(v.key), "the QUIC transport's server-role Dial returned a connection with blocked peer %s (%s)", n, stripPort(ra))
+		}
+		if v := fs.m.ipVerdict(ip); v.def {
+			fs.violate("C10/punch-returned-blocked-"+kindName[v.kind]+"/quic/"+famTag(ra)+"/"+fs.phase(v.key), "the QUIC transport's server-role Dial returned a connection with %s at %s, which matches blocked %s", n, stripPort(ra), v.key)
+		}
+		if n != "" && ip != nil {
+			fs.mu.Lock()
+			// transport.Dial was called directly: the swarm's dial hooks are not in front of it
+			fs.calls["PeerDial|"+n]++
+			fs.calls["AddrDial|"+n+"|quic|"+normIP(ip)]++
+			fs.mu.Unlock()
+			fs.judgeCallSites(n, ip, "quic", network.DirOutbound, true, nil, stripPort(ra))
+		}
+		got.Close()
+	}
+	if gotConn != nil {
+		fs.mu.Lock()
+		known := fs.everSeen[gotConn]
+		fs.mu.Unlock()
+		if !known {
+			fs.judgeAdmitted(connEvent{conn: gotConn, peer: gotConn.RemotePeer(), addr: gotConn.RemoteMultiaddr(), dir: gotConn.Stat().Direction})
+		}
+	}
+	// G itself must not have started a QUIC connection attempt towards a blocked target (a punch is not one)
+	fs.mu.Lock()
+	uds := append([]udpDial(nil), fs.udpDials[fs.udpJudged:]...)
+	fs.udpJudged = len(fs.udpDials)
+	fs.mu.Unlock()
+	for _, d := range uds {
+		if v := fs.m.ipVerdict(d.to); v.def {
+			fs.violate("C10/dialed-blocked-"+kindName[v.kind]+"/quic/"+fs.phase(v.key), "G sent a QUIC client Initial to %s during a punch round although %s is blocked", normIP(d.to), v.key)
+			break
+		}
+		if hh := fs.hostByIP(d.to); hh != nil && fs.m.peerVerdict(hh.name).def {
+			fs.violate("C10/dialed-blocked-peer/quic/"+fs.phase("p:"+hh.name), "G sent a QUIC client Initial to %s, an address of blocked peer %s, during a punch round", normIP(d.to), hh.name)
+			break
+		}
+	}
+	gHas := func(ip string) bool {
+		for _, c := range fs.G.Swarm.ConnsToPeer(h.node.ID) {
+			if x := ipOf(c.RemoteMultiaddr()); x != nil && normIP(x) == ip {
+				return true
+			}
+		}
+		return false
+	}
+	for _, d := range ds {
+		fs.logf("  %s->G: %s", d.name, short(d.err))
+		r := "ok"
+		if d.err != nil {
+			r = "err"
+		}
+		res = append(res, d.name+"="+r)
+		iv := fs.m.ipVerdict(net.ParseIP(d.ip))
+		if pvH.def || iv.def {
+			fs.bump()
+			fs.probe("punch-round-with-blocked-dialler")
+			// refused-inbound-not-closed, as in an ordinary round
+			if !faulty && !gHas(d.ip) {
+				if left := d.node.Swarm.ConnsToPeer(fs.G.ID); len(left) > 0 {
+					v := pvH
+					if !v.def {
+						v = iv
+					}
+					fs.violate("C10/refused-inbound-not-closed/"+kindName[v.kind]+"/"+tptOf(left[0].RemoteMultiaddr())+"/"+fs.phase(v.key), "%s (matches blocked %s) still holds %d connection(s) to G 6 virtual seconds after its dial into G's hole punch although G lists none from %s: G refused without closing; %s", d.name, v.key, len(left), d.ip, desc)
+				}
+			}
+		}
+	}
+	res = append(res, fmt.Sprintf("%s:%d", h.name, len(fs.G.Swarm.ConnsToPeer(h.node.ID))))
+	fs.sig = append(fs.sig, fmt.Sprintf("punch[%s|mid=%v|%s]", desc, midOp, strings.Join(res, ",")))
+
+	// ---- clean up: the twin disappears, nothing stays open between G and the host -------------------------------
+	fs.mu.Lock()
+	fs.punching[h.name] = false
+	fs.mu.Unlock()
+	if twin != nil {
+		twin.Close()
+	}
+	fs.G.Swarm.ClosePeer(h.node.ID)
+	h.node.Swarm.ClosePeer(fs.G.ID)
+	fs.settle(time.Second)
+	fs.G.Swarm.Backoff().Clear(h.node.ID)
+	h.node.Swarm.Backoff().Clear(fs.G.ID)
+}
+
 func (fs *fullStack) byName(n string) *host {
 	if n == "P" {
 		return fs.P
@@ -1444,6 +1732,7 @@ func (fs *fullStack) byName(n string) *host {
 func (fs *fullStack) runFullStack(mode simnet.LinkMode, tapeS *simrt.Stream) {
 	fs.n = simnet.New(tapeS, simnet.Config{Mode: mode})
 	fs.everSeen = map[network.Conn]bool{}
+	fs.punching = map[string]bool{}
 	fs.scidFrom = map[string]bool{}
 	if fs.quic {
 		// UDP wire: in part of the runs datagrams are lost (<= 30 %), duplicated and delayed (= reordered)
@@ -1559,7 +1848,13 @@ func (fs *fullStack) runFullStack(mode simnet.LinkMode, tapeS *simrt.Stream) {
 
 	steps := 3 + fs.g.Int(8)
 	for i := 0; i < steps && !fs.dead; i++ {
-		switch fs.g.Weighted(5, 6, 1) {
+		w := []int{5, 6, 1}
+		if fs.quic {
+			w = append(w, 3) // hole-punch rounds exist in the QUIC stratum only
+		}
+		switch fs.g.Weighted(w...) {
+		case 3:
+			fs.punchRound()
 		case 0:
 			fs.round()
 		case 1:
